@@ -468,6 +468,13 @@ func scens() []scen {
 			{{Kind: "unsub", F: fidx(e, 1, "$share/g1/a/"), S: 0}},
 			{{Kind: "lookup", P: pidx(1, "a/")}, {Kind: "lookup", P: pidx(1, "a/b/")}},
 		}},
+		// a stray unsubscribe (subscriber not present, path present) racing with "last subscriber
+		// leaves, another one arrives" on the same filter: the whole branch is pruned and re-created
+		{Name: "stray-unsubscribe", Mode: "", Pre: []cop{{Kind: "sub", F: fidx(e, 1, "a/b/"), S: 0}}, Threads: [][]cop{
+			{{Kind: "unsub", F: fidx(e, 1, "a/b/"), S: 1}},
+			{{Kind: "unsub", F: fidx(e, 1, "a/b/"), S: 0}, {Kind: "sub", F: fidx(e, 1, "a/b/"), S: 2}},
+			{{Kind: "lookup", P: pidx(1, "a/b/")}},
+		}},
 		{Name: "mqtt-multi-wildcard", Mode: "mqtt", Threads: [][]cop{
 			{{Kind: "sub", F: fidx(m, 1, "a/#/"), S: 0}, {Kind: "unsub", F: fidx(m, 1, "a/#/"), S: 0}},
 			{{Kind: "sub", F: fidx(m, 1, "a/b/"), S: 1}},
